@@ -211,29 +211,109 @@ def query_awaited(P, R):
     R.floor('C02.MPT.2', 4, 'query send sites')
 
 
-def refusal_kills(P, R):
-    V = core.verdict_fns(P)
-    n = 0
-    for f in P.fns.values():
-        for bid in f.reachable_blocks():
-            for e in f.out[bid]:
-                r = rules.edge_rel(e)
-                if not r:
-                    continue
-                l, op, rr = r
-                if isinstance(l, dict) and l.get('k') == 'callref' and l.get('callee') in ('strncmp', 'strcmp') and op == '==' and const_of(rr) == 0 \
-                        and any(a.get('k') == 'str' and a['v'].startswith('NO') for a in l['args']):
-                    n += 1
+def _text_fact(r, textp):
+    """A relation known on an edge, as a fact about the bytes of one of the text parameters: (var, kind, ...)."""
+    l, op, rr = r
+    if not isinstance(l, dict):
+        return None
+    c = const_of(rr)
+    if l.get('k') == 'idx' and is_var(l.get('base')) and l['base']['name'] in textp and isinstance(const_of(l.get('index')), int) and isinstance(c, int) and op in ('==', '!='):
+        return (l['base']['name'], 'byte', const_of(l['index']), op, c)
+    if l.get('k') == 'un' and l.get('op') == '*' and is_var(l.get('e')) and l['e']['name'] in textp and isinstance(c, int) and op in ('==', '!='):
+        return (l['e']['name'], 'byte', 0, op, c)
+    if l.get('k') == 'callref' and l.get('callee') in ('strncmp', 'strcmp') and c == 0 and op in ('==', '!=') and len(l.get('args') or ()) >= 2:
+        a = l['args']
+        if is_var(a[0]) and a[0]['name'] in textp and a[1].get('k') == 'str':
+            n = const_of(a[2]) if l['callee'] == 'strncmp' and len(a) > 2 else None
+            if l['callee'] == 'strncmp' and not isinstance(n, int):
+                return None
+            return (a[0]['name'], 'cmp', a[1]['v'], n, op)
+    return None
 
-                    def kills(t):
-                        if t.ev['k'] != 'call':
-                            return False
-                        ts = P.callees(t, False)
-                        fmt_k = ts and ts[0].key in V and any(core.first_word(fm) == 'k' for (s2, fm, ad) in core.send_sites(P) if s2.fn.key == ts[0].key)
-                        return bool(fmt_k)
-                    first = f.block_sites(e.dst)
-                    ok = any(kills(t) for t in first) or (bool(first) and f.path_avoiding(first[-1], kills) is None)
-                    R.ob('C02.MPT.3', ok, first[0] if first else f, 'a NO reply reaches the rejecting verdict on every path', key='NO->kill')
+
+def _fact_holds(fact, text):
+    """Is the fact true of the C string `text` (bytes past the terminator are unknown: any fact about them may hold)?"""
+    kind = fact[1]
+    b = text.encode('latin-1') + b'\0'
+    if kind == 'byte':
+        _, _, i, op, c = fact
+        if i >= len(b):
+            return True
+        return (b[i] == c) if op == '==' else (b[i] != c)
+    _, _, lit, n, op = fact
+    lb = lit.encode('latin-1') + b'\0'
+    eq = True
+    k = 0
+    while True:
+        if n is not None and k >= n:
+            break
+        x, y = b[k], lb[k]
+        if x != y:
+            eq = False
+            break
+        if x == 0:
+            break
+        k += 1
+    return eq if op == '==' else not eq
+
+
+REFUSALS = ('NO', 'NO ', 'NO go away')      # "NO <message>", the message may be empty (header of iauth_xquery.c)
+
+
+def refusal_kills(P, R):
+    """Every documented form of a refusal reaches the rejecting verdict: along every path of a reply handler that looked
+    at the bytes of the reply text and returns without having called the rejecting verdict, what the path learned about
+    the text rules out "NO" (bare - the message may be empty), "NO " and "NO <message>"."""
+    V = core.verdict_fns(P)
+    sends_k = {k for k in V if any(core.first_word(fm) == 'k' for (s2, fm, ad) in core.send_sites(P) if s2.fn.key == k)}
+    from .c05 import reply_closure
+    n = 0
+    for f in reply_closure(P).values():
+        textp = [p['name'] for p in f.param_info if p['t'].startswith('const char')]
+        if not textp:
+            continue
+
+        def on_edge(st, e):
+            r = rules.edge_rel(e)
+            if not r:
+                return st
+            ft = _text_fact(r, textp)
+            if ft is None:
+                return st
+            return st | frozenset([ft])
+
+        def on_event(st, t):
+            if t.ev['k'] == 'call' and any(g.key in sends_k for g in P.callees(t, True)):
+                return st | frozenset([('', 'killed')])
+            return st
+        before, _, sin, bout = f.forward(frozenset(), on_event, on_edge)
+        rets = [t for t in f.sites() if t.ev['k'] == 'ret']
+        ends = []
+        for t in rets:
+            ends += [(t, st) for st in before.get(t.key, set())]
+        # a function that falls off its end
+        for bid in f.reachable_blocks():
+            if not f.out[bid] and not any(t.ev['k'] == 'ret' for t in f.block_sites(bid)):
+                ends += [(f, st) for st in bout.get(bid, set())]
+        looked = False
+        for where, st in ends:
+            facts = [x for x in st if x[1] != 'killed']
+            if not facts:
+                continue
+            looked = True
+            if ('', 'killed') in st:
+                continue
+            for v in {x[0] for x in facts}:
+                for cand in REFUSALS:
+                    if all(_fact_holds(x, cand) for x in facts if x[0] == v):
+                        n += 1
+                        R.ob('C02.MPT.3', False, where, 'a refusal reaches the rejecting verdict on every path: the reply %r gets past every test on this path (%s) to a return without it' % (
+                            cand, '; '.join(sorted('%s[%s] %s %r' % (x[0], x[2], x[3], chr(x[4])) if x[1] == 'byte' else 'cmp(%s,%r,%s) %s 0' % (x[0], x[2], x[3], x[4]) for x in facts))[:200]),
+                            key='NO->kill:%s' % cand.strip())
+                        break
+        if looked:
+            n += 1
+            R.ob('C02.MPT.3', True, f, 'paths of %s that inspect the reply text were followed to their returns' % f.name, key='NO->kill:walked:%s' % f.name, nontrivial=False)
     R.floor('C02.MPT.3', 1)
 
 
